@@ -172,6 +172,60 @@ pub fn eval_history(run: &mut Run, h: &[FlatEv], start_mode: HandleControl, orac
     }
 }
 
+/// Depth-2 closure from the initial state and pumping (the same event / pattern repeated far
+/// beyond 2^16 steps): looks for state outside the nine-flag record + mode.
+fn pairs_and_pumping(run: &mut Run, oracle: Oracle) {
+    let mut n = 0u64;
+    for mode in MODES {
+        for &k1 in ALL_KEYS {
+            for s1 in KEY_STATES {
+                // one history per first event: all second events are appended one after the
+                // other is not sound (they change state), so each pair is its own run
+                for &k2 in ALL_KEYS {
+                    for s2 in KEY_STATES {
+                        let h = [FlatEv::Key(k1, s1), FlatEv::Key(k2, s2), FlatEv::Key(KeyCode::A, KeyState::Down)];
+                        eval_history(run, &h, mode, oracle);
+                        n += 1;
+                    }
+                }
+            }
+        }
+    }
+    run.nontrivial_enum(n);
+    run.part("all_ordered_event_pairs_from_initial_state", json!({"cases": n}));
+    let mut steps = 0u64;
+    for &k in ALL_KEYS {
+        for st in KEY_STATES {
+            let h = vec![FlatEv::Key(k, st); 700];
+            eval_history(run, &h, HandleControl::MapLettersToUnicode, oracle);
+            steps += 700;
+        }
+    }
+    use KeyCode::*;
+    use KeyState::*;
+    let patterns: Vec<Vec<FlatEv>> = vec![
+        vec![FlatEv::Key(A, Down), FlatEv::Key(A, Up)],
+        vec![FlatEv::Key(LShift, Down), FlatEv::Key(A, Down), FlatEv::Key(A, Up), FlatEv::Key(LShift, Up)],
+        vec![FlatEv::Key(CapsLock, Down), FlatEv::Key(CapsLock, Up), FlatEv::Key(X, Down)],
+        vec![FlatEv::Key(NumpadLock, Down), FlatEv::Key(NumpadLock, Up), FlatEv::Key(Numpad7, Down)],
+        vec![FlatEv::Key(RControl2, Down), FlatEv::Key(NumpadLock, Down), FlatEv::Key(RControl2, Up), FlatEv::Key(NumpadLock, Up)],
+        vec![FlatEv::Key(LControl, Down), FlatEv::Key(RControl, Down), FlatEv::Key(LControl, Up), FlatEv::Key(C, Down), FlatEv::Key(RControl, Up)],
+        vec![FlatEv::Key(RAltGr, Down), FlatEv::Key(Q, Down), FlatEv::Key(RAltGr, Up), FlatEv::Key(LAlt, Down), FlatEv::Key(LAlt, Up)],
+        vec![FlatEv::Key(A, Down)],
+        vec![FlatEv::Key(LShift, Down)],
+        vec![FlatEv::Key(PowerOnTestOk, SingleShot), FlatEv::Key(A, Down)],
+        vec![FlatEv::SetMode(HandleControl::Ignore), FlatEv::Key(A, Down), FlatEv::SetMode(HandleControl::MapLettersToUnicode), FlatEv::Key(A, Down)],
+    ];
+    for pat in &patterns {
+        let reps = 70_000 / pat.len() + 1;
+        let h: Vec<FlatEv> = pat.iter().copied().cycle().take(reps * pat.len()).collect();
+        steps += h.len() as u64;
+        eval_history(run, &h, HandleControl::MapLettersToUnicode, oracle);
+        run.nontrivial_fp(fp(&("pump", hist_text(pat))));
+    }
+    run.part("pumping", json!({"events_fed": steps, "single_event_repeats": 700, "patterns": patterns.iter().map(|p| hist_text(p)).collect::<Vec<_>>(), "pattern_steps": ">= 70000 each"}));
+}
+
 fn witness(bits: u16) -> Vec<FlatEv> {
     mm::witness_history(bits).into_iter().map(|(k, s)| FlatEv::Key(k, s)).collect()
 }
@@ -310,18 +364,20 @@ fn random_histories(run: &mut Run, oracle: Oracle, cases: u32, salt: u64) {
 }
 
 pub fn c04(run: &mut Run) {
-    run.rule = "Exhaustive: for each of the 512 modifier records x 2 Ctrl modes a fresh Keyboard is driven there by a canonical witness history (arrival confirmed through get_modifiers), then each of the 124 keys x {Down, Up, SingleShot} is applied and get_modifiers() is compared with a nine-flag reference model written from the property statement; on ordinary presses an argument-encoding layout reveals the modifier record handed to the layout (Keyboard and bare EventDecoder), which must be the same record. Random: event histories (<= 200 ops, 48% on the nine modifier/lock keys, Pause idiom, mode and layout changes) checked after every event, shrunk by proptest. Non-trivial transition = event on a modifier/lock key, or source state with >= 2 flags set besides NumLock (exhaustive: distinct by construction); non-trivial history = contains a Pause idiom or >= 3 distinct modifier keys (distinct by fingerprint).".into();
+    run.rule = "Exhaustive: for each of the 512 modifier records x 2 Ctrl modes a fresh Keyboard is driven there by a canonical witness history (arrival confirmed through get_modifiers), then each of the 124 keys x {Down, Up, SingleShot} is applied and get_modifiers() is compared with a nine-flag reference model written from the property statement; on ordinary presses an argument-encoding layout reveals the modifier record handed to the layout (Keyboard and bare EventDecoder), which must be the same record. All ordered pairs of events from the initial state (372 x 372 x 2 modes) and pumping (every event repeated 700 times, typical patterns repeated for >= 70,000 events) look for state outside the record. Random: event histories (<= 200 ops, typematic repeats of ordinary and modifier keys, 48% on the nine modifier/lock keys, Pause idiom, mode and layout changes) checked after every event, shrunk by proptest. Non-trivial transition = event on a modifier/lock key, or source state with >= 2 flags set besides NumLock (exhaustive: distinct by construction); non-trivial history = contains a Pause idiom or >= 3 distinct modifier keys (distinct by fingerprint).".into();
     run.assumptions = vec!["get_modifiers() exposes the complete modifier record, and all 512 values are reached, so the enumerated relation is the complete transition relation of the modifier state; independence from state outside the record is attacked by the random layer".into()];
     exhaustive_transitions(run, Oracle::Mods);
+    pairs_and_pumping(run, Oracle::Mods);
     run.exhaustive = true;
     let n = run.tier.pick(5_000u32, 500_000u32);
     random_histories(run, Oracle::Mods, n, 0xC04);
 }
 
 pub fn c14(run: &mut Run) {
-    run.rule = "Exhaustive: (a) 1024 decoder states (512 modifier records x 2 modes, reached by witness histories) x 124 keys x 3 key states, on Keyboard and on a bare EventDecoder, with an argument-encoding layout whose returned character names the layout object, key, modifier record and mode it was consulted with. Oracle: Up/SingleShot -> None; press of the nine modifier/lock keys -> RawKey(self), NumpadLock with the hidden Pause-Ctrl held -> RawKey(PauseBreak); any other press -> exactly encode(current layout, key, the modifier record defined by the event history, current mode). (b) all sequences of <= 3 configuration changes from {set_ctrl_handling(Map), (Ignore), change_layout(#1), (#2)} between two presses, in 8 modifier states x 3 keys. (c) random histories mixing events and configuration changes. Non-trivial = press in a non-initial modifier state or after a configuration change.".into();
+    run.rule = "Exhaustive: (a) 1024 decoder states (512 modifier records x 2 modes, reached by witness histories) x 124 keys x 3 key states, on Keyboard and on a bare EventDecoder, with an argument-encoding layout whose returned character names the layout object, key, modifier record and mode it was consulted with. Oracle: Up/SingleShot -> None; press of the nine modifier/lock keys -> RawKey(self), NumpadLock with the hidden Pause-Ctrl held -> RawKey(PauseBreak); any other press -> exactly encode(current layout, key, the modifier record defined by the event history, current mode). (b) all sequences of <= 3 configuration changes from {set_ctrl_handling(Map), (Ignore), change_layout(#1), (#2)} between two presses, in 8 modifier states x 3 keys. (c) all ordered pairs of events from the initial state and pumping (>= 70,000-event repetitions); (d) random histories mixing events, typematic repeats and configuration changes. Non-trivial = press in a non-initial modifier state or after a configuration change.".into();
     run.assumptions = vec!["'the current modifier state' is the state defined by the history of modifier events (the C04 reference model); a modifier-tracking defect therefore also shows here whenever it changes what a later press yields".into()];
     exhaustive_transitions(run, Oracle::Output);
+    pairs_and_pumping(run, Oracle::Output);
 
     // (b) orderings of configuration changes between two presses
     let changes = [
